@@ -185,6 +185,7 @@ DEF_FN_PRE(mod, ULPS, template <class A> static bool pre(A x, A y) { return x - 
 struct F_atan2 { template <class... A> static double mag(A...) { return 0; } static const char* name() { return "atan(y,x)"; } enum { CMP = BITS }; template <class A, class B> static auto f(A a, B b) -> decltype(glm::atan(a, b)) { return glm::atan(a, b); } template <class... A> static bool pre(A...) { return true; } };
 DEF_FN_PRE(clamp, BITS, template <class A> static bool pre(A, A lo, A hi) { return !(lo > hi); }) DEF_FN_PRE(fclamp, VALUE, template <class A> static bool pre(A x, A lo, A hi) { return !(lo > hi) && !is_snan(x) && !is_snan(lo) && !is_snan(hi); })
 DEF_FN_PRE(mix, ULPS, template <class A, class B> static bool pre(A x, A y, B a) { return true; } template <class A, class B> static double mag(A x, A y, B a) { return std::fabs((double)x * (1.0 - (double)a)) + std::fabs((double)y * (double)a); })   /* terms of the documented formula x*(1-a) + y*a */
+struct F_mixsel { template <class... A> static double mag(A...) { return 0; } static const char* name() { return "mix(bool selector)"; } enum { CMP = BITS }; template <class... A> static auto f(A... a) -> decltype(glm::mix(a...)) { return glm::mix(a...); } template <class... A> static bool pre(A...) { return true; } };   /* a selection, not the blend formula: the unselected operand has no effect */
 DEF_FN_PRE(smoothstep, ULPS, template <class A> static bool pre(A e0, A e1, A) { return e0 < e1; }) DEF_FN_PRE(fma, ULPS, template <class... A> static bool pre(A...) { return true; } template <class A> static double mag(A a, A b, A c) { return std::fabs((double)a * (double)b) + std::fabs((double)c); })
 // integer functions
 DEF_FN(bitCount, BITS) DEF_FN(findLSB, BITS) DEF_FN(findMSB, BITS) DEF_FN(bitfieldReverse, BITS) DEF_FN_PRE(isPowerOfTwo, BITS, template <class A> static bool pre(A x) { return !(std::is_signed<A>::value && x == std::numeric_limits<A>::min()); })   /* vector == scalar for negatives too (abs of the most negative value is undefined) */
@@ -320,7 +321,7 @@ template <typename T> static void reg_float_nary(Engine& E, const char* tn) {
 template <typename T> static void reg_float_ternary(Engine& E, const char* tn) {
   R3<F_min3, T, T, 0>(E, tn); R3<F_max3, T, T, 0>(E, tn); R3<F_fmin3, T, T, 0>(E, tn); R3<F_fmax3, T, T, 0>(E, tn);
   R3<F_clamp, T, T, 1>(E, tn); R3<F_fclamp, T, T, 1>(E, tn); R3<F_mix, T, T, 2>(E, tn); R3<F_smoothstep, T, T, 4>(E, tn); R3<F_fma, T, T, 0>(E, tn); R3<F_equalEps, T, T, 2>(E, tn); R3<F_notEqualEps, T, T, 2>(E, tn);
-  { Op& op = E.add(std::string("mix(x,y,bool) <") + tn + ">", op_t3<F_mix, T, bool, 2>); op.quick = {product("VALUES^2 x {false,true}", {D1<T>(), D1<T>(), D1<bool>()})}; }
+  { Op& op = E.add(std::string("mix(x,y,bool) <") + tn + ">", op_t3<F_mixsel, T, bool, 2>); op.quick = {product("VALUES^2 x {false,true}", {D1<T>(), D1<T>(), D1<bool>()})}; }
   { Op& op = E.add(std::string("abs/mix/equal/notEqual on all 9 matrix shapes <") + tn + ">", op_matrix<T>); Domain d = range("VALUES/3", 0, n3<T>() / 3, false); op.quick = {product("sub-lattice^3", {d, d, d})}; }
 }
 template <typename T> static void reg_float_ops(Engine& E, const char* tn) { R2<O_add, T, T, 7>(E, tn); R2<O_sub, T, T, 7>(E, tn); R2<O_mul, T, T, 7>(E, tn); R2<O_div, T, T, 7>(E, tn); Rmisc<T>(E, tn); }
@@ -331,7 +332,7 @@ template <typename T> static void reg_int(Engine& E, const char* tn) {
   R1<F_bitCount, T>(E, tn); R1<F_findLSB, T>(E, tn); R1<F_findMSB, T>(E, tn); R1<F_bitfieldReverse, T>(E, tn); R1<F_isPowerOfTwo, T>(E, tn); R1<F_nextPowerOfTwo, T>(E, tn); R1<F_prevPowerOfTwo, T>(E, tn);
   R2<F_isMultiple, T, T, 1>(E, tn); R2<F_nextMultiple, T, T, 1>(E, tn); R2<F_prevMultiple, T, T, 1>(E, tn);
   { Op& op = E.add(std::string("findNSB(v, ivec) <") + tn + "> L=1..4 x Q, per-lane counts", op_findnsb<T>); op.quick = {product("VALUES x N(1..w+1)", {D1<T>(), range("N", 1, sizeof(T) * 8 + 1, true)})}; }
-  { Op& op = E.add(std::string("mix(x,y,bool) <") + tn + ">", op_t3<F_mix, T, bool, 2>); op.quick = {product("VALUES^2 x {false,true}", {D1<T>(), D1<T>(), D1<bool>()})}; }
+  { Op& op = E.add(std::string("mix(x,y,bool) <") + tn + ">", op_t3<F_mixsel, T, bool, 2>); op.quick = {product("VALUES^2 x {false,true}", {D1<T>(), D1<T>(), D1<bool>()})}; }
   { Op& op = E.add(std::string("compAdd/compMul/compMin/compMax <") + tn + ">", op_reduce<T>); op.quick = {D1<T>()}; }
   if constexpr (std::is_signed<T>::value) { R1<F_abs, T>(E, tn); R1<F_sign, T>(E, tn); }
 }
